@@ -343,4 +343,91 @@ Theorem header_roundtrip defname m :
     g_dtype m' = g_dtype m /\ g_nodata m' = g_nodata m.
 Proof. exact (header_roundtrip_bo defname LE m). Qed.
 
+(* ---------------- ESRI style header (ULXMAP/ULYMAP/XDIM/YDIM, NODATA) ---------------- *)
+(* the layout of the .hdr files that come with rasters produced elsewhere
+   (gis/tests/fdtest.hdr): upper-left corner, cell dimensions, NODATA *)
+Definition esri_lines (w : Z) (m : gmeta T) (ux uy xd yd : T) : list string :=
+  [kv w "NROWS" (show_Z (g_nrows m)); kv w "NCOLS" (show_Z (g_ncols m));
+   kv w "NBITS" (show_Z (snd (g_dtype m) * 8));
+   kv w "PIXELTYPE" (upper (pixeltype_text (g_dtype m)));
+   kv w "ULXMAP" (io_pr IO ux); kv w "ULYMAP" (io_pr IO uy);
+   kv w "XDIM" (io_pr IO xd); kv w "YDIM" (io_pr IO yd);
+   kv w "NODATA" (show_nd IO (g_nodata m))].
+
+Definition esri_cfg (defname : string) (m : gmeta T) (ux uy xd yd : T) : cfgT :=
+  [("xllcorner", CFlt (nofZ N STREAM_DEF_XLL_Z)); ("yllcorner", CFlt (nofZ N STREAM_DEF_YLL_Z));
+   ("cellsize", CFlt (nofZ N STREAM_DEF_CSZ_Z));
+   ("nodata", cval_of_nd (g_nodata m)); ("nbits", CInt (snd (g_dtype m) * 8));
+   ("pixeltype", CText (textval (upper (pixeltype_text (g_dtype m)))));
+   ("byteorder", CText STREAM_DEF_BYTEORDER); ("comment", CText STREAM_DEF_COMMENT);
+   ("name", CText defname);
+   ("nrows", CInt (g_nrows m)); ("ncols", CInt (g_ncols m));
+   ("ulxmap", CFlt ux); ("ulymap", CFlt uy); ("xdim", CFlt xd); ("ydim", CFlt yd)].
+
+Lemma parse_esri_lines w defname m ux uy xd yd :
+  pl (Some (stream_defaults N defname, [])) (esri_lines w m ux uy xd yd) =
+  Some (esri_cfg defname m ux uy xd yd, []).
+Proof.
+  unfold esri_lines.
+  rewrite pl_cons, (parse_line_int w "NROWS" "nrows") by (reflexivity || discriminate).
+  rewrite apply_lres_noparent by reflexivity. cbn [fst snd].
+  rewrite pl_cons, (parse_line_int w "NCOLS" "ncols") by (reflexivity || discriminate).
+  rewrite apply_lres_noparent by reflexivity. cbn [fst snd].
+  rewrite pl_cons, (parse_line_int w "NBITS" "nbits") by (reflexivity || discriminate).
+  rewrite apply_lres_noparent by reflexivity. cbn [fst snd].
+  rewrite pl_cons, (parse_line_text w "PIXELTYPE" "pixeltype") by (reflexivity || discriminate).
+  rewrite apply_lres_noparent by reflexivity. cbn [fst snd].
+  rewrite pl_cons, (parse_line_flt w "ULXMAP" "ulxmap") by (reflexivity || discriminate).
+  rewrite apply_lres_noparent by reflexivity. cbn [fst snd].
+  rewrite pl_cons, (parse_line_flt w "ULYMAP" "ulymap") by (reflexivity || discriminate).
+  rewrite apply_lres_noparent by reflexivity. cbn [fst snd].
+  rewrite pl_cons, (parse_line_flt w "XDIM" "xdim") by (reflexivity || discriminate).
+  rewrite apply_lres_noparent by reflexivity. cbn [fst snd].
+  rewrite pl_cons, (parse_line_flt w "YDIM" "ydim") by (reflexivity || discriminate).
+  rewrite apply_lres_noparent by reflexivity. cbn [fst snd].
+  rewrite pl_cons, (parse_line_nodata w "NODATA" "nodata") by (reflexivity || discriminate).
+  rewrite apply_lres_noparent by reflexivity. reflexivity.
+Qed.
+
+Lemma esri_lines_wf w m ux uy xd yd : Forall line_wf (esri_lines w m ux uy xd yd).
+Proof.
+  unfold esri_lines.
+  assert (K : forall k v, no_nl k = true -> no_nl v = true -> line_wf (kv w k v))
+    by (intros; apply kv_line_wf; assumption).
+  repeat constructor; apply K; try reflexivity.
+  all: first [ apply show_Z_no_nl | apply no_ws_no_nl, pr_tok | apply no_ws_no_nl, show_nd_no_ws
+             | (destruct (g_dtype m) as [[] b]; reflexivity) ].
+Qed.
+
+(* cell size = XDIM, x corner = ULXMAP, y corner = ULYMAP - cellsize*nrows;
+   cells that are not square beyond the tolerance are rejected *)
+Theorem esri_header w defname m ux uy xd yd :
+  1 <= g_nrows m < 2 ^ 63 -> 1 <= g_ncols m < 2 ^ 63 -> In (g_dtype m) all_dtypes ->
+  conv_nodata N IO (g_dtype m) (g_nodata m) = Some (g_nodata m) ->
+  from_stream_header N IO defname (String.concat "" (esri_lines w m ux uy xd yd)) =
+  if nltb N (io_tol IO) (nabs N (nsub N yd xd)) then None
+  else Some (mkG defname (g_ncols m) (g_nrows m) xd ux (nsub N uy (nmul N xd (nofZ N (g_nrows m))))
+                 (g_dtype m) (g_nodata m) STREAM_DEF_COMMENT [], LE).
+Proof.
+  intros Hr Hc Hd Hn.
+  unfold from_stream_header, from_stream_gen, parse_lines_gen.
+  rewrite readlines_concat by apply esri_lines_wf.
+  change (fold_left _ ?ls ?st) with (pl st ls).
+  rewrite parse_esri_lines.
+  unfold esri_cfg, finish_stream.
+  destruct m as [name nc nr csz xll yll d nd comment par]. cbn [g_name g_ncols g_nrows g_csz g_xll g_yll
+    g_dtype g_nodata g_comment g_parent] in *.
+  rewrite textval_pixeltype.
+  pose proof (dtype_sweep d LE Hd) as S.
+  set (pt := lower (upper (pixeltype_text d))) in *.
+  set (nb := snd d * 8) in *.
+  assert (G : forall cm, mk_grid N IO defname nc (Some nr) xd ux (nsub N uy (nmul N xd (nofZ N nr))) d nd cm =
+              Some (mkG defname nc nr xd ux (nsub N uy (nmul N xd (nofZ N nr))) d nd cm []))
+    by (intros; apply mk_grid_ok; [lia | lia | assumption]).
+  cbn -[mk_grid np_dtype resub_pt show_Z Z.div String.append nltb nabs nsub nmul nofZ].
+  cbn [border_char] in S. rewrite S.
+  destruct (nltb N (io_tol IO) (nabs N (nsub N yd xd))); [reflexivity|].
+  cbn -[mk_grid nsub nmul nofZ]. rewrite nd_of_cval, G. reflexivity.
+Qed.
+
 End Header.
